@@ -1255,6 +1255,19 @@ class Frame:
             vals = []
             g = True
             res = None
+            v0 = e.values[0]
+            if (not is_and and isinstance(v0, ast.Call) and isinstance(v0.func, ast.Attribute) and v0.func.attr == "get"
+                    and len(v0.args) == 1 and not v0.keywords):
+                # `d.get(k) or w` with a symbolic key: the looked-up value if present and truthy, else w
+                base = self.ev(v0.func.value, env)
+                key = self.ev(v0.args[0], env)
+                if (type(base) is dict or type(base).__name__ == "GDict") and (is_sym(key) or type(base).__name__ == "GDict"):
+                    rest_e = e.values[1] if len(e.values) == 2 else ast.BoolOp(op=ast.Or(), values=e.values[1:])
+                    w = self.ev(rest_e, env)
+                    v = base.lookup(key, w, True) if type(base).__name__ == "GDict" else dict_get(base, key, w)
+                    if not is_sym(v):
+                        return v if v else w
+                    return merge(truth(v), v, w)
             first = self.ev(e.values[0], env)
             res = first
             for nxt in e.values[1:]:
